@@ -76,19 +76,25 @@ theorem unimockArgs_subKind (a : Attr) (ps : Toks) (h : a.unimockArgs = some ps)
         · simp at hsx
       · split at hg <;> simp at hg
 
-theorem found_genTraitDef (opts : Opts) (ind depMode subAttrs vis ident tg sup fns mode) :
+/-- the attributes re-applied from a fn / mod are never the unimock derivation -/
+theorem reapplied_noUnimock (mode : InputMode) (hmode : mode ≠ .rawTrait) (subAttrs : List Attr) :
+    (reappliedSubs mode subAttrs).filterMap Attr.unimockArgs = [] := by
+  have hb : (mode == InputMode.rawTrait) = false := by cases mode <;> simp_all
+  simp only [reappliedSubs, hb, Bool.false_eq_true, if_false]
+  rw [List.filterMap_eq_nil_iff]
+  intro a ha
+  have hk := (List.mem_filter.mp ha).2
+  cases hu : a.unimockArgs with
+  | none => rfl
+  | some ps =>
+    have := unimockArgs_subKind a ps hu
+    rw [this] at hk
+    simp at hk
+
+theorem found_genTraitDef (opts : Opts) (ind depMode subAttrs vis ident tg sup fns mode)
+    (hR : (reappliedSubs mode subAttrs).filterMap Attr.unimockArgs = []) :
     (genTraitDef opts ind depMode subAttrs vis ident tg sup fns mode).attrs.filterMap Attr.unimockArgs =
       if opts.unimockValue then (unimockParams ind opts.mockApi mode fns).toList else [] := by
-  have hR : (reappliedSubs subAttrs).filterMap Attr.unimockArgs = [] := by
-    rw [List.filterMap_eq_nil_iff]
-    intro a ha
-    have hk := (List.mem_filter.mp ha).2
-    cases hu : a.unimockArgs with
-    | none => rfl
-    | some ps =>
-      have := unimockArgs_subKind a ps hu
-      rw [this] at hk
-      simp at hk
   have hE : (entraitAttrOf depMode).filterMap Attr.unimockArgs = [] := by
     cases depMode <;> simp [entraitAttrOf, unimockArgs_entraitAttr]
   have hM : (mockallAttrOf opts).filterMap Attr.unimockArgs = [] := by
@@ -180,14 +186,14 @@ theorem unimockParams_trait (o : Opts) (fns : List TraitFn) :
   cases o.mockApi <;> simp
 
 theorem T_C11 (v : Variant) (attr : Toks) (item : Item) (out : Out)
-    (h : expand v attr item = .ok out) : P_C11 v attr item out.view = true := by
+    (hnu : item.noUserUnimock = true) (h : expand v attr item = .ok out) : P_C11 v attr item out.view = true := by
   cases item with
   | fn f =>
     obtain ⟨a, tf, tg, depMode, implBlock, h1, h2, _, h4, rfl⟩ := expandFn_ok h
     have him := genImplBlock_ok h4
     simp only [P_C11, effectiveOpts, h1, Out.view, View.items, Out.inside, Out.after, mainTrait?, traitsOf,
       List.nil_append, List.append_nil, List.head?_cons]
-    rw [found_genTraitDef]
+    rw [found_genTraitDef _ _ _ _ _ _ _ _ _ _ (reapplied_noUnimock .singleFn (by decide) f.attrs)]
     cases hu : (v.apply a.opts).unimockValue
     · simp
     · simp only [if_true]
@@ -207,7 +213,7 @@ theorem T_C11 (v : Variant) (attr : Toks) (item : Item) (out : Out)
       have him := genImplBlock_ok h4
       simp only [P_C11, effectiveOpts, h1, Out.view, View.items, Out.inside, Out.after, mainTrait?, traitsOf,
         List.cons_append, List.nil_append, List.head?_cons]
-      rw [found_genTraitDef]
+      rw [found_genTraitDef _ _ _ _ _ _ _ _ _ _ (reapplied_noUnimock .module (by decide) m.attrs)]
       cases hu : (v.apply a.opts).unimockValue
       · simp
       · simp only [if_true]
@@ -225,7 +231,13 @@ theorem T_C11 (v : Variant) (attr : Toks) (item : Item) (out : Out)
     obtain ⟨a0, fns, delegation, h1, h2, _, rfl⟩ := expandTrait_ok h
     simp only [P_C11, effectiveOpts, h1, Out.view, View.items, Out.inside, Out.after, mainTrait?, traitsOf,
       List.cons_append, List.nil_append, List.append_nil, List.head?_cons]
-    rw [found_genTraitDef, unimockParams_trait]
+    have hR : (reappliedSubs .rawTrait t.attrs).filterMap Attr.unimockArgs = [] := by
+      rw [reappliedSubs_rawTrait, List.filterMap_eq_nil_iff]
+      intro a ha
+      have hall : t.attrs.all (fun a => a.unimockArgs.isNone) = true := hnu
+      have := List.all_eq_true.mp hall a ha
+      simpa using this
+    rw [found_genTraitDef _ _ _ _ _ _ _ _ _ _ hR, unimockParams_trait]
     cases hu : (v.apply a0.opts).unimockValue
     · simp
     · simp [expectedUnimock, Item.mode, (by decide : (Mode.trait == Mode.fn) = false)]
